@@ -3,4 +3,10 @@
 #[cfg(kani)]
 mod stubs;
 #[cfg(kani)]
+mod cborwf;
+#[cfg(kani)]
 mod c24;
+#[cfg(kani)]
+mod c22;
+#[cfg(kani)]
+mod probe;
